@@ -71,7 +71,8 @@ def run(chk) -> None:
     sea = _fields(mct.classes["SerializedEventAttempt"])
     chk.floor("C12.R1", "EventAttempt fields", len(ea), 6)
     w = [c for c in ast.walk(to_s) if isinstance(c, ast.Call) and last(call_name(c)) == "SerializedEventAttempt"]
-    r = [c for c in ast.walk(from_s) if isinstance(c, ast.Call) and last(call_name(c)) == "EventAttempt" and any("attempt." in ast.unparse(k.value) for k in c.keywords)]
+    # restored queue entries: EventAttempt constructions under an iteration over the serialized `.queue` (whatever the loop variable is called)
+    r = [c for c in ast.walk(from_s) if isinstance(c, ast.Call) and last(call_name(c)) == "EventAttempt" and ast.unparse(_enclosing_loop_iter(c)).endswith(".queue")]
     if not w or not r:
         raise AnchorError("C12.R1: queue (de)serialization sites not found")
     for f in ea:
